@@ -11,7 +11,9 @@ EXPLANATION = (
     "discipline holds under both RefCount bodies (RefCell panics / RwLock self-deadlocks on a conflict). R4: both bodies of "
     "StrainsVec::push store `value` only under the same positivity test and a zero otherwise (sibling normalisation). Numerical "
     "equivalence of the compact and the raw StrainsVec bodies is NOT decided (they treat negative/NaN pushes "
-    "differently; equality needs every pushed strain >= 0).")
+    "differently; equality needs every pushed strain >= 0)."
+    " R5: sum / iter / into_vec of both bodies traverse the whole list (no truncating adaptor applied to the list itself, private helpers followed)."
+)
 
 CONFINED = ('util::strains_vec::', 'util::sync::', '<util::strains_vec::', '<util::sync::')
 
@@ -80,6 +82,7 @@ def run(ctx):
     # R4 sibling normalisation of StrainsVec::push: whatever the compact body does not store as a value (non-positive, -NaN) it counts
     # as zero; the raw body must push `value` only under the same positivity facts and a zero otherwise
     r4_push(ctx, facts)
+    r5_whole_traversal(ctx, facts)
     # R3 both RefCount bodies
     for c in ('default', 'sync') + (('raw_strains', 'raw_strains+sync') if ctx.tier == 'thorough' else ()):
         nsites, nw = guardrule.check(ctx, facts[c], 'C10-R3', tag='[%s]' % c)
@@ -161,8 +164,22 @@ def r4_push(ctx, facts):
             else:
                 bad.append(t.get('ln'))
         # every call of push must record exactly one section: each path to the return passes a store
-        store_blocks = {bi for bi, t in f.calls() if (t['func'].get('name') == 'push' and (t['func'].get('path') or '').startswith('std::vec::Vec'))
-                        or t['func'].get('name') == 'incr_zero_count'}
+        def stores_of(g, depth=0):
+            """blocks of g that record a section: Vec::push, incr_zero_count, or a call of a private StrainsVec helper that itself
+            records one on every path (`self.push_zero()`)"""
+            out = set()
+            for bi_, t_ in g.calls():
+                nm = t_['func'].get('name')
+                if (nm == 'push' and (t_['func'].get('path') or '').startswith('std::vec::Vec')) or nm == 'incr_zero_count':
+                    out.add(bi_)
+                elif depth < 2 and t_['func'].get('local') and (t_['func'].get('impl_adt') or '').endswith('StrainsVec'):
+                    h = F.fn(t_['func'].get('path') or '')
+                    if h is not None and h is not g:
+                        hs = stores_of(h, depth + 1)
+                        if hs and h.cfg.must_pass_through(0, hs):
+                            out.add(bi_)
+            return out
+        store_blocks = stores_of(f)
         every_path = bool(store_blocks) and f.cfg.must_pass_through(0, store_blocks)
         ctx.require(every_path, 'C10-R4', 'push-total:' + cname, 'StrainsVec::push [%s] records one section on every path (%d store site(s))' % (cname, len(store_blocks)), f.where(),
                     bad='StrainsVec::push [%s] can return without recording the section: the number of strain sections (and everything zipped by index, e.g. taiko\'s '
@@ -171,3 +188,42 @@ def r4_push(ctx, facts):
                     'StrainsVec::push [%s] stores `value` only under the positivity test (value.to_bits() > 0 && is_sign_positive, or value > 0.0); everything else is a zero' % cname,
                     f.where(), bad='StrainsVec::push [%s] stores its argument without the positivity test the sibling implementation applies (line(s) %s): a negative strain '
                                    'is a zero in one feature configuration and a negative number in the other, so results differ between builds' % (cname, bad))
+
+
+# ---- R5: the consumers that do not sort first (sum, iter, into_vec) traverse the WHOLE list in both bodies
+TRUNCATING = ('take_while', 'take', 'skip', 'skip_while', 'step_by', 'map_while', 'truncate', 'split_at', 'split_first', 'split_last')
+
+
+def r5_whole_traversal(ctx, facts):
+    import prov
+    n = 0
+    for cname in ('default', 'raw_strains'):
+        F = facts[cname]
+        for name in ('sum', 'iter', 'into_vec'):
+            f = F.fn('util::strains_vec::inner::StrainsVec::%s' % name)
+            if f is None:
+                ctx.violation('C10-R5', 'anchor-missing:%s:%s' % (name, cname), 'StrainsVec::%s not found in configuration %s' % (name, cname))
+                continue
+            n += 1
+            # calls made by the method itself and by the private StrainsVec helpers it goes through
+            seen, work, cuts = set(), [f], []
+            while work:
+                g = work.pop()
+                if g.path in seen:
+                    continue
+                seen.add(g.path)
+                for bi, t in g.calls():
+                    nm = t['func'].get('name')
+                    if nm in TRUNCATING and (t['func'].get('krate') in ('core', 'std', 'alloc')) and \
+                            any(x[0] == 'field' and x[2] == 'inner' for x in prov.walk(prov.prov_of(g).call_args(bi)[0], limit=80)):
+                        # only a cut of the list itself counts (`repeat(0.0).take(n)` for a zero run is fine)
+                        cuts.append('%s in %s (line %s)' % (nm, g.path.split('::')[-1], t.get('ln')))
+                    if t['func'].get('local') and (t['func'].get('impl_adt') or '').endswith('StrainsVec') and len(seen) < 6:
+                        h = F.fn(t['func'].get('path') or '')
+                        if h is not None:
+                            work.append(h)
+            ctx.require(not cuts, 'C10-R5', '%s:%s' % (name, cname), 'StrainsVec::%s [%s] traverses the whole list (no truncating adaptor)' % (name, cname), f.where(),
+                        bad='StrainsVec::%s [%s] goes through %s: on an unsorted list of section peaks it stops at the first zero section, while the sibling '
+                            'body takes every section into account — the two feature configurations give different results (flashlight rating, exported strains)' % (
+                                name, cname, '; '.join(cuts)))
+    ctx.floor('C10-R5', n, 6, 'whole-list consumers of StrainsVec (sum, iter, into_vec in both bodies)')
